@@ -84,40 +84,25 @@ def confirm(wt, d):
     for c in crates:
         pk += ["-p", c]
 
-    # 1. demo on the unchanged tree
+    # 1. change + demo: the whole existing suite must keep its stable tests, the demo must fail
     reset(wt)
     rc, o = sh(["git", "apply", "--whitespace=nowarn", demo], cwd=wt)
     if rc != 0:
         out["error"] = "demo.diff does not apply: " + o[-300:]
         return out
-    rc, failed, summ, built = run_nextest(wt, pk + ["-E", filt], os.path.join(d, "confirm-demo-unchanged.log"))
-    out["demo_unchanged"] = {"rc": rc, "summary": summ, "failed": sorted(map(str, failed))}
-    if not built or rc != 0 or failed or " 0 passed" in summ or "no summary" in summ:
-        out["error"] = "demonstration does not pass on the unchanged tree"
-        reset(wt)
-        return out
-
-    # 2. demo with the change
     rc, o = sh(["git", "apply", "--whitespace=nowarn", patch], cwd=wt)
     if rc != 0:
         out["error"] = "patch.diff does not apply: " + o[-300:]
         reset(wt)
         return out
-    rc, failed, summ, built = run_nextest(wt, pk + ["-E", filt], os.path.join(d, "confirm-demo-changed.log"))
-    out["demo_changed"] = {"rc": rc, "summary": summ, "failed": sorted(map(str, failed))}
-    if not built:
-        out["error"] = "does not compile with the change"
-        reset(wt)
-        return out
-    if not failed:
-        out["error"] = "demonstration does not fail with the change"
-        reset(wt)
-        return out
-
-    # 3. existing suite with the change only
-    reset(wt)
-    sh(["git", "apply", "--whitespace=nowarn", patch], cwd=wt)
     rc, failed, summ, built = run_nextest(wt, ["--workspace"], os.path.join(d, "confirm-suite.log"))
+    if not built:
+        out["error"] = "workspace does not build with the change"
+        reset(wt)
+        return out
+    demo_failed = sorted(t for (_b, t) in failed if any(t.endswith(n) or ("::" + n + "::") in ("::" + t) for n in names))
+    out["demo_changed"] = {"summary": summ, "failed": demo_failed}
+
     def stable_of(fs):
         return sorted({(b, t) for (b, t) in fs
                        if f"{b.split('::')[0]}::{t}" in STABLE or f"{b}::{t}" in STABLE})
@@ -131,13 +116,27 @@ def confirm(wt, d):
                                              os.path.join(d, f"confirm-suite-retry{attempt}.log"))
         sf = [x for x in sf if x in stable_of(failed2)]
     stable_failed = sorted(f"{b.split('::')[0]}::{t}" for (b, t) in sf)
-    out["suite"] = {"summary": summ, "stable_tests_failing": stable_failed, "built": built}
-    reset(wt)
-    if not built:
-        out["error"] = "workspace does not build with the change"
-        return out
+    out["suite"] = {"summary": summ, "stable_tests_failing": stable_failed}
     if stable_failed:
         out["error"] = "existing tests fail with the change"
+        reset(wt)
+        return out
+    if not demo_failed:
+        out["error"] = "demonstration does not fail with the change"
+        reset(wt)
+        return out
+
+    # 2. demo on the unchanged tree
+    rc, o = sh(["git", "apply", "-R", "--whitespace=nowarn", patch], cwd=wt)
+    if rc != 0:
+        out["error"] = "could not revert patch: " + o[-300:]
+        reset(wt)
+        return out
+    rc, failed, summ, built = run_nextest(wt, pk + ["-E", filt], os.path.join(d, "confirm-demo-unchanged.log"))
+    out["demo_unchanged"] = {"rc": rc, "summary": summ, "failed": sorted(map(str, failed))}
+    reset(wt)
+    if not built or rc != 0 or failed or " 0 passed" in summ or "no summary" in summ:
+        out["error"] = "demonstration does not pass on the unchanged tree"
         return out
     out["ok"] = True
     return out
